@@ -620,8 +620,17 @@ PROPS = {
                    trace=CONC_TRACE, final_rc3=True)]),
     "C02": dict(
         design=[(DUR, ["MC_RainDur_small.cfg", "MC_RainDur_comp.cfg"],
-                 ["MC_RainDur_small.cfg", "MC_RainDur_big.cfg", "MC_RainDur_comp.cfg"]), REOPEN],
-        switches=[("Bug_InputsDeletedBeforeManifest", DUR, "MC_RainDur_comp.cfg", "Durable"),
+                 ["MC_RainDur_small.cfg", "MC_RainDur_big.cfg", "MC_RainDur_comp.cfg"]), REOPEN,
+                # file-number allocation: the counter is volatile, the manifest's copy lags behind
+                # the files created since (rotated WAL, table under construction); no create()
+                # may land on a file that is still needed, through every crash point of recovery
+                ("MC_RainFileNum.tla", ["MC_RainFileNum_noreuse.cfg", "MC_RainFileNum_reuse.cfg"],
+                 ["MC_RainFileNum_noreuse.cfg", "MC_RainFileNum_reuse.cfg",
+                  "MC_RainFileNum_big.cfg", "MC_RainFileNum_bigreuse.cfg"])],
+        switches=[("Bug_NoMarkWalUsed", "MC_RainFileNum.tla", "MC_RainFileNum_noreuse.cfg", "NoClobber"),
+                  ("Bug_InstallPersistsStale", "MC_RainFileNum.tla", "MC_RainFileNum_noreuse.cfg", "PersistedCovers"),
+                  ("Bug_GiveBackAlways", "MC_RainFileNum.tla", "MC_RainFileNum_reuse.cfg", "CounterCovers"),
+                  ("Bug_InputsDeletedBeforeManifest", DUR, "MC_RainDur_comp.cfg", "Durable"),
                   ("Bug_ReplaySkipsOlderLogs", REO, REOQ, None),
                   ("Bug_CounterNotRestored", REO, REOQ, "NumbersFresh"),
                   ("Bug_AckBeforeWal", DUR, "MC_RainDur_small.cfg", "Durable"),
